@@ -445,6 +445,22 @@ def eraseList : List Node → List Tree
   | n :: ns => n.erase :: eraseList ns
 end
 
+/-! ## `text()` -/
+
+/-- `Xml::text()`: a text node's text; for an element the text at the end of its first-child chain
+    (`_Xml::text()`: walk down while the node is an element with children), empty when the chain
+    ends in an element -/
+def Node.textOf : Node → Bytes
+  | .text _ _ t => t
+  | .elem _ _ _ _ [] => []
+  | .elem _ _ _ _ (c :: _) => c.textOf
+
+/-- the same observation on a tree without identities -/
+def Tree.textOf : Tree → Bytes
+  | .text t => t
+  | .elem _ _ [] => []
+  | .elem _ _ (c :: _) => c.textOf
+
 /-! ## holding on to a sub-element -/
 
 mutual
